@@ -567,6 +567,9 @@ func (p *Printer) semiRsrv(s string, pos Pos) {
 	}
 	p.w.WriteString(s)
 	p.wantSpace = spaceRequired
+	// The separator written before this reserved word is now used up;
+	// e.g. the two closing braces in "{ { a & }; }" each need their own.
+	p.wroteSemi = false
 }
 
 func (p *Printer) flushComments() {
@@ -905,6 +908,20 @@ func (p *Printer) arithmExpr(expr ArithmExpr, compact, spacePlusMinus bool) {
 	p.arithmExprRecurse(expr, compact, spacePlusMinus)
 }
 
+// signJoins reports whether writing a prefix + or - operator of next right
+// after an operator ending in the same character would form another token.
+func signJoins(op string, next ArithmExpr) bool {
+	un, ok := next.(*UnaryArithm)
+	if !ok || un.Post {
+		return false
+	}
+	switch un.Op {
+	case Plus, Minus, Inc, Dec:
+		return op[len(op)-1] == un.Op.String()[0]
+	}
+	return false
+}
+
 func (p *Printer) arithmExprRecurse(expr ArithmExpr, compact, spacePlusMinus bool) {
 	switch expr := expr.(type) {
 	case *Word:
@@ -913,6 +930,9 @@ func (p *Printer) arithmExprRecurse(expr ArithmExpr, compact, spacePlusMinus boo
 		if compact {
 			p.arithmExprRecurse(expr.X, compact, spacePlusMinus)
 			p.w.WriteString(expr.Op.String())
+			if signJoins(expr.Op.String(), expr.Y) {
+				p.w.WriteByte(' ') // "a - -b" must not become "a--b"
+			}
 			p.arithmExprRecurse(expr.Y, compact, false)
 		} else {
 			p.arithmExprRecurse(expr.X, compact, spacePlusMinus)
@@ -930,11 +950,14 @@ func (p *Printer) arithmExprRecurse(expr ArithmExpr, compact, spacePlusMinus boo
 		} else {
 			if spacePlusMinus {
 				switch expr.Op {
-				case Plus, Minus:
+				case Plus, Minus, Inc, Dec:
 					p.space()
 				}
 			}
 			p.w.WriteString(expr.Op.String())
+			if signJoins(expr.Op.String(), expr.X) {
+				p.w.WriteByte(' ') // "- -b" must not become "--b"
+			}
 			if expr.Op == Not && !compact {
 				// "!" followed by a word triggers history expansion
 				// in interactive shells; a space prevents that.
@@ -1352,7 +1375,9 @@ func (p *Printer) command(cmd Command, redirs []*Redirect) (startRedirs int) {
 
 			p.nestedStmts(ci.Stmts, ci.Last, ci.OpPos)
 			p.level++
-			if !p.minify || i != len(cmd.Items)-1 {
+			// When minifying, the last item's ;; can be left out,
+			// unless it has no commands: "case x in *);esac" is invalid.
+			if !p.minify || i != len(cmd.Items)-1 || len(ci.Stmts) == 0 {
 				if p.wantsNewline(ci.OpPos, false) {
 					p.newlines(ci.OpPos)
 					p.wantNewline = true
